@@ -129,6 +129,15 @@ def run_case(R: Recorder, case: dict[str, Any], verbose: bool = False) -> None:
                 W.tg_enabled = True
                 log["gen_probes"].append((pid, kind))
 
+            if case.get("handles_failed_wait") and i % 2 == case.get("items", 0) % 2:
+                # the generator waits for something that fails (a sub-task, a timeout of its own), handles that failure and goes straight
+                # on to its next item - no further suspension between the delivered exception and the yield
+                failing = asyncio.get_running_loop().create_future()
+                asyncio.get_running_loop().call_soon(failing.set_exception, GenErr("a step the generator waited for failed"))
+                try:
+                    await failing
+                except GenErr:
+                    R.count("generator_steps_completed_by_a_handled_exception")
             item = next(uid)
             if case.get("falsy"):
                 from haiway import MISSING
@@ -377,12 +386,68 @@ def cases(tier: str, rng: random.Random):  # noqa: ANN201
                 modes = ["full"] + [f"break@{k}" for k in range(1, n + 1)] + [f"aclose@{k}" for k in range(1, n + 1)]
                 for mode in modes:
                     for nested_at in ([], [0], [n - 1] if n > 1 else []):
-                        yield {"items": n, "end": end, "nested_at": list(nested_at), "records": (n + len(mode)) % 2 == 0, "inner": False, "place": place, "mode": mode, "via": "plain" if n % 2 else "ctx", "falsy": (n + len(nested_at)) % 2 == 1, "deep": (n + len(mode) + len(nested_at)) % 3 == 0, "gen_spawn": n >= 1 and (n + len(mode) + len(place)) % 3 == 0, "cancelling": (n + len(mode) + len(nested_at) + len(place)) % 4 == 0}
+                        yield {"items": n, "end": end, "nested_at": list(nested_at), "records": (n + len(mode)) % 2 == 0, "inner": False, "place": place, "mode": mode, "via": "plain" if n % 2 else "ctx", "falsy": (n + len(nested_at)) % 2 == 1, "deep": (n + len(mode) + len(nested_at)) % 3 == 0, "gen_spawn": n >= 1 and (n + len(mode) + len(place)) % 3 == 0, "cancelling": (n + len(mode) + len(nested_at) + len(place)) % 4 == 0, "handles_failed_wait": (n + len(mode) + len(place)) % 3 == 1}
     for _ in range({"quick": 300, "thorough": 20000}[tier]):
         n = rng.randint(1, 5)
         total = n + 2
         yield {"items": n, "end": rng.choice(["stop", "raise", "raise-cancelled"]), "nested_at": sorted(rng.sample(range(n), rng.randint(0, min(2, n)))), "records": rng.random() < 0.5, "inner": rng.random() < 0.4,
-               "falsy": rng.random() < 0.4, "deep": rng.random() < 0.4, "cancelling": rng.random() < 0.25, "gen_spawn": rng.random() < 0.3, "place": rng.choice(["same", "sibling", "outside", "task"]), "mode": rng.choice(["full", "full", f"break@{rng.randint(1, total)}", f"aclose@{rng.randint(1, total)}"]), "via": rng.choice(["plain", "ctx"])}
+               "falsy": rng.random() < 0.4, "handles_failed_wait": rng.random() < 0.3, "deep": rng.random() < 0.4, "cancelling": rng.random() < 0.25, "gen_spawn": rng.random() < 0.3, "place": rng.choice(["same", "sibling", "outside", "task"]), "mode": rng.choice(["full", "full", f"break@{rng.randint(1, total)}", f"aclose@{rng.randint(1, total)}"]), "via": rng.choice(["plain", "ctx"])}
+
+
+def run_source_fails_when_called(R: Recorder, case: dict[str, Any]) -> None:
+    """the source cannot even be called (its arguments do not bind) or is a plain factory that validates its input and raises before it
+    hands out a generator: the consumer gets that error - from ctx.stream itself or from the first item, either is fine - handles it,
+    and the scope the stream was requested in completes like any other once it has been left"""
+    from haiway import ctx
+
+    events: list[Any] = []
+
+    async def numbers(limit: int) -> Any:
+        for i in range(limit):
+            yield i
+
+    def validating(limit: int) -> Any:
+        if limit < 0:
+            raise ValueError("limit must not be negative")
+        return numbers(limit)
+
+    def done(name: str) -> Any:
+        def cb(metrics: Any) -> None:
+            events.append(("completion", name))
+        return cb
+
+    got: dict[str, Any] = {"items": [], "error": None, "where": None}
+
+    async def main(loop: Any) -> None:
+        async with ctx.scope("outer", completion=done("outer")):
+            async with ctx.scope("S", completion=done("S")):
+                try:
+                    got["where"] = "ctx.stream"
+                    stream = ctx.stream(numbers, 1, 2, 3) if case["kind"] == "arguments-do-not-bind" else ctx.stream(validating, -1)
+                    got["where"] = "first item"
+                    async for item in stream:
+                        got["items"].append(item)
+                    got["where"] = "never"
+                except (TypeError, ValueError) as exc:
+                    got["error"] = exc
+            events.append(("exit", "S"))
+        events.append(("exit", "outer"))
+        for _ in range(6):
+            await asyncio.sleep(0)
+
+    status, value, loop = run_virtual(main, max_iterations=5000)
+    R.case(case, nontrivial=True)
+    R.count("stream_sources_that_fail_when_called")
+    w0 = {"place": "source-fails-when-called", "source": case["kind"]}
+    if status != "ok":
+        R.monitor("items", False, where={**w0, "kind": "run-failed"}, detail=f"run ended {status} {value!r}; events={events}", case=case)
+        return
+    want = TypeError if case["kind"] == "arguments-do-not-bind" else ValueError
+    R.monitor("items", got["items"] == [] and isinstance(got["error"], want), where={**w0, "kind": "items-or-end-differ"}, detail=f"received {got['items']!r} then {got['error']!r} (raised by {got['where']}); expected no item and a {want.__name__}", case=case)
+    for name in ("S", "outer"):
+        n = sum(1 for e in events if e == ("completion", name))
+        R.monitor("completion", n == 1, where={**w0, "kind": "completion-count-or-order", "scope": name}, detail=f"scope {name} (the stream was requested in S; its source failed when called, the consumer handled that) completed {n} time(s) by quiescence; events={events}", case=case)
+    R.monitor("loop-clean", not loop.errors, where={**w0, "kind": "loop-exception-handler-called"}, detail=f"{loop.errors}", case=case)
 
 
 def run_streams_of_a_left_scope(R: Recorder, case: dict[str, Any]) -> None:
@@ -463,6 +528,8 @@ def run(R: Recorder, tier: str, seed: int, shard: int, nshards: int) -> None:
     if shard == 0:
         argnames.check_ctx_entry_points(R, "items", "stream")
         argnames.check_injecting_ctx(R, "items", "stream")
+        for kind in ("arguments-do-not-bind", "factory-raises"):
+            run_source_fails_when_called(R, {"source_fails": True, "kind": kind})
         for order, ma, mb, na, nb in itertools.product(("AB", "BA"), ("full", "close"), ("full", "close"), (1, 3), (0, 2)):
             if mb == "close" and nb == 0:
                 continue
@@ -480,6 +547,9 @@ def replay(R: Recorder, case: dict[str, Any]) -> None:
         return
     if "ctx_entry" in case:
         argnames.check_ctx_entry_points(R, "items", "stream")
+        return
+    if case.get("source_fails"):
+        run_source_fails_when_called(R, case)
         return
     if case.get("left_scope"):
         run_streams_of_a_left_scope(R, case)
